@@ -1,0 +1,19 @@
+package tengo
+
+// Site identifiers passed to verifAt. The calls are no-ops unless the package
+// is built with the "verif" build tag (see verif_on.go / verif_off.go).
+const (
+	verifVMRunEnter = iota + 1
+	verifVMStep
+	verifVMRunExit
+	verifRunCtxEnter
+	verifVMGoStart
+	verifVMGoEnd
+	verifVMGoPanic
+	verifRunCtxSpawned
+	verifRunCtxCancelSeen
+	verifRunCtxAborted
+	verifRunCtxReturn
+	verifLockR
+	verifLockW
+)
